@@ -437,6 +437,7 @@ func (t *UpdateTran) Delete(th *core.Thread, table string, off uint64) {
 		keys[i] = is.Key(rec)
 		t.fkeyDeleteBlock(ts, i, keys[i], schema.CascadeDeletes)
 	}
+	t.checkCurrent(ts, table, off, keys, "delete")
 	t.ck(t.db.ck.Delete(t.ct, table, off, keys))
 	func() {
 		defer func() {
@@ -461,6 +462,25 @@ func (t *UpdateTran) Delete(th *core.Thread, table string, off uint64) {
 		ti.Size -= n
 	}()
 	t.db.CallTrigger(th, t, table, rec, "")
+}
+
+// checkCurrent panics if off is not the current version of the record,
+// i.e. the record has been updated or deleted
+// since off was obtained, probably in this transaction.
+// A delete or update through a stale offset would otherwise be applied
+// to index entries that no longer exist (e.g. if an indexed field was changed)
+// which is not detected until the indexes are persisted.
+func (t *UpdateTran) checkCurrent(ts *meta.Schema, table string, off uint64,
+	keys []string, op string) {
+	ti := t.tran.GetInfo(table) // readonly
+	for i := range ts.Indexes {
+		if ts.Indexes[i].Mode == 'k' {
+			if ti.Indexes[i].Lookup(keys[i]) != off {
+				panic("update & " + op + " on same record")
+			}
+			return
+		}
+	}
 }
 
 // fkeyDeleteBlock blocks deleting or changing a key
@@ -609,6 +629,7 @@ func (t *UpdateTran) update(th *core.Thread, table string, oldoff uint64, newrec
 			}
 		}
 	}
+	t.checkCurrent(ts, table, oldoff, oldkeys, "update")
 	t.ck(t.db.ck.Update(t.ct, table, oldoff, oldkeys, newkeys))
 	ti = t.getRwInfo(table)
 	d := int64(len(newrec)) - int64(len(oldrec))
